@@ -789,6 +789,21 @@ def take (E : Env α) (fuel : Nat) : Nat → Gen α → List Prog → Option (Ge
     | some (g', none) => some (g', acc, true)
     | some (g', some p) => take E fuel k g' (acc ++ [p])
 
+/-- a history of the enumerator object: `take k` = `k` calls of `next(generator)`, `merge` = a call of
+    `merge_program(representative, other)` between two of them -/
+inductive Act where
+  | take (k : Nat)
+  | merge (other : Prog) (ty : Nat)
+
+/-- everything yielded along a history -/
+def runHist (E : Env α) (fuel : Nat) : List Act → Gen α → List Prog → Option (Gen α × List Prog)
+  | [], g, out => some (g, out)
+  | .merge p t :: rest, g, out => runHist E fuel rest (merge E g p t) out
+  | .take k :: rest, g, out =>
+    match take E fuel k g [] with
+    | none => none
+    | some (g', ys, _) => runHist E fuel rest g' (out ++ ys)
+
 /-! ### specification: the language of the grammar -/
 
 /- `derives G S p`: the program `p` is derivable from the non-terminal `S` (its head symbol is a rule
